@@ -2858,6 +2858,8 @@ class Inliner(object):
                                 try:
                                     if self._splice_expr_only(caller, st, n, m[0], m[1]):
                                         self.stats["INLINE"] = self.stats.get("INLINE", 0) + 1
+                                        if FOREIGN.get(m[0].name) is m[0] or FOREIGN_FUNCS.get(m[0].name) is m[0]:
+                                            FOREIGN_INLINED.add(m[0].name)
                                         return True
                                 except Bail as e:
                                     self.log.append("INLINE skipped %s in %s: %s" % (m[0].name, caller.name, e))
